@@ -156,7 +156,8 @@ func (o *objectGoMapSimple) exportType() reflect.Type {
 
 func (o *objectGoMapSimple) equal(other objectImpl) bool {
 	if other, ok := other.(*objectGoMapSimple); ok {
-		return o == other
+		// equality compares the wrapped values, not the wrappers (a new wrapper is created on every access)
+		return o == other || reflect.ValueOf(o.data).Pointer() == reflect.ValueOf(other.data).Pointer()
 	}
 	return false
 }
